@@ -55,6 +55,22 @@ Definition check_rate_intent : rd verdict :=
        else combine_verdicts [prop_ok 1 (negb ierr && (ifreq =? n) && (iper =? per)) [n; per; ifreq; iper];
                               prop_ok 7 (negb iunl) []]).
 
+(* kind 12: -rate given several times: every well-formed occurrence replaces the rate as a whole
+   (N per D, D = one second when omitted); a malformed one is rejected (the command then exits, so
+   what it left in the variable is not observable and not compared) *)
+Definition check_rate_seq : rd verdict :=
+  vals <- getlist getstr ;; ierrs <- getlist getbool ;; ifreq <- getz ;; iper <- getz ;;
+  let model := fold_left (fun st v => match st with
+                                       | (cur, errs) => match rate_set true cur v with
+                                                        | Some r => (r, errs ++ [false])
+                                                        | None => (cur, errs ++ [true]) end end)
+                         vals ((50, 1000000000), []) in
+  let '(mf, mp) := fst model in
+  let berrs := map (fun b : bool => if b then 1 else 0) in
+  ret (combine_verdicts
+    [ prop_ok 8 (list_eqb (berrs (snd model)) (berrs ierrs) &&
+                 (existsb (fun b : bool => b) ierrs || ((mf =? ifreq) && ((mf =? 0) || (mp =? iper))))) [mf; mp; ifreq; iper] ]).
+
 (* kind 2: repeated -header flags; intent = the (key, value) pairs in order *)
 Definition check_headers : rd verdict :=
   vals <- getlist getstr ;; pairs <- getlist (getpair getstr getstr) ;;
@@ -138,6 +154,7 @@ Definition check : rd verdict :=
   kind <- getz ;;
   if kind =? 1 then check_rate
   else if kind =? 11 then check_rate_intent
+  else if kind =? 12 then check_rate_seq
   else if kind =? 2 then check_headers
   else if kind =? 3 then check_maxbody
   else if kind =? 4 then check_dnsttl
